@@ -103,6 +103,17 @@ class Monitors:
                     ok = False
                 if result._metadata is self._metadata:
                     ok = False
+                else:
+                    # ... and not shared in any part: what is written on the copy's metadata afterwards does
+                    # not show on the receiver's (the two may be different objects around one dictionary)
+                    try:
+                        result._metadata.vt_probe = 'written-on-the-copy'
+                        if self._metadata.vt_probe is not None or dict(self._metadata._fields) != meta_before:
+                            ok = False
+                        result._metadata._fields.pop('vt_probe', None)
+                        self._metadata._fields.pop('vt_probe', None)
+                    except Exception:
+                        ok = False
             if not ok:
                 mon.problems.append(('replace-contract', 'new object, given fields replaced, others identical, '
                                      'metadata equal, receiver untouched', mon.describe(result), mon.describe(self), repr(given)[:80]))
@@ -535,9 +546,42 @@ def exotic_field_values(rec):
                                       dict(kind='exotic', objects=[repr(a)[:100], repr(b)[:100]]), ha, hb)
 
 
+def pickle_after_name_reuse(rec):
+    """Objects of a grammar installed under a name pickle -- also when the name was used for another
+    description in between and the first description is compiled again (the module in use must be the
+    one its classes are looked up in)."""
+    name = 'vt_c14_reuse_%d' % id(rec)
+    A = 'grammar %s\nstart = Box*\nclass Box { v: /[a-z]/ ; n: /[0-9]/? }\n' % name
+    B = 'grammar %s\nstart = Other\nclass Other { w: "x" }\nclass Box { q: "y" }\n' % name
+    try:
+        for step, seq in (('A', [A]), ('A-B-A', [A, B, A]), ('A-A', [A, A]), ('B-A-B-A', [B, A, B, A])):
+            g = None
+            for d in seq:
+                r = observe.compile_grammar(d)
+                if r[0] != 'ok':
+                    rec.violation('pickle-reuse:grammar-error', 'Grammar()', dict(kind='pickle-reuse', step=step), 'module', r)
+                    return
+                g = r[1]
+            obj = g.parse('a1b')
+            rec.case()
+            rec.nontrivial(('pickle-reuse', step))
+            rec.count('pickles_after_name_reuse')
+            try:
+                c = pickle.loads(pickle.dumps(obj))
+                if not (c == obj and c is not obj and all(type(x) is type(y) for x, y in zip(c, obj))):
+                    rec.violation('pickle-reuse:not-equal', 'pickle round trip after the name was re-used', dict(kind='pickle-reuse', step=step), repr(obj), repr(c))
+            except Exception as e:
+                rec.violation('pickle-reuse:%s' % type(e).__name__, 'pickle round trip after the name was re-used', dict(kind='pickle-reuse', step=step),
+                              'an equal copy', '%s: %s' % (type(e).__name__, str(e)[:160]))
+    finally:
+        sys.modules.pop(name, None)
+
+
 def run_shard(rec):
     quick = rec.tier == 'quick'
     rec.deadline = time.time() + (300 if quick else 600)
+    if rec.shard == 5:
+        pickle_after_name_reuse(rec)
     if rec.shard == 3:
         exotic_field_values(rec)
     if rec.shard == 1:
@@ -553,6 +597,8 @@ def replay(rec, rep):
     case = rep['case']
     if case.get('kind') == 'xproc':
         return cross_process_pickle(rec, True)
+    if case.get('kind') == 'pickle-reuse':
+        return pickle_after_name_reuse(rec)
     if case.get('kind') == 'exotic':
         return exotic_field_values(rec)
     if case.get('kind') == 'interrupted-hash':
